@@ -393,5 +393,7 @@ pub fn main(args: &[String]) {
             }
         }
     }
+    // the project's own C++ test programs against regenerated bindings and freshly built libraries
+    crate::repo_tests::native_tests(&mut rep, true, false);
     rep.print();
 }
